@@ -65,21 +65,30 @@ impl Codegen for Choice {
     ) -> Result<Option<TokenStream>> {
         if self.choices.len() < 2 {
             self.choices[0].generate_inline_body(rule_fields, grammar, settings, clone_state)
-        } else if self.choices.iter().all(|c| {
-            c.generate_inline_body(rule_fields, grammar, settings, CloneState::No)
-                .ok()
-                .flatten()
-                .is_some()
-        }) && self.get_filtered_rule_fields(rule_fields, grammar)?.len() <= 1
-        {
-            Ok(Some(self.generate_parse_body(
-                rule_fields,
-                grammar,
-                settings,
-                clone_state,
-            )?))
         } else {
-            Ok(None)
+            // Generate the inline bodies of the arms only once: doing it here and again in
+            // generate_parse_body doubles the work at every level of nested choices.
+            let inline_bodies: Vec<Option<TokenStream>> = self
+                .choices
+                .iter()
+                .map(|c| {
+                    c.generate_inline_body(rule_fields, grammar, settings, CloneState::No)
+                        .ok()
+                        .flatten()
+                })
+                .collect();
+            if inline_bodies.iter().all(Option::is_some)
+                && self.get_filtered_rule_fields(rule_fields, grammar)?.len() <= 1
+            {
+                Ok(Some(self.generate_parse_body_with(
+                    rule_fields,
+                    grammar,
+                    clone_state,
+                    inline_bodies,
+                )?))
+            } else {
+                Ok(None)
+            }
         }
     }
 
@@ -126,16 +135,31 @@ impl Choice {
         settings: &CodegenSettings,
         clone_state: CloneState,
     ) -> Result<TokenStream> {
+        let inline_bodies = self
+            .choices
+            .iter()
+            .map(|choice| {
+                choice.generate_inline_body(rule_fields, grammar, settings, CloneState::No)
+            })
+            .collect::<Result<Vec<_>>>()?;
+        self.generate_parse_body_with(rule_fields, grammar, clone_state, inline_bodies)
+    }
+
+    fn generate_parse_body_with(
+        &self,
+        rule_fields: &[FieldDescriptor],
+        grammar: &Grammar,
+        clone_state: CloneState,
+        inline_bodies: Vec<Option<TokenStream>>,
+    ) -> Result<TokenStream> {
         let fields = self.get_filtered_rule_fields(rule_fields, grammar)?;
         let calls = self
             .choices
             .iter()
+            .zip(inline_bodies)
             .enumerate()
-            .map(|(num, choice)| {
-                let parse_call = if let Some(inline_body) = choice
-                    .generate_inline_body(rule_fields, grammar, settings, CloneState::No)
-                    .unwrap()
-                {
+            .map(|(num, (choice, inline_body))| {
+                let parse_call = if let Some(inline_body) = inline_body {
                     inline_body
                 } else {
                     let choice_mod = format_ident!("choice_{num}");
